@@ -1,6 +1,6 @@
 (* C08 - boolean checkers used by the generated case files.
    A case = (size, hop, pad, input, observed blocks or exception name). *)
-From Coq Require Import List Bool Arith ZArith String.
+From Coq Require Import List Bool Arith ZArith String QArith Qcanon.
 From AL Require Import Base.CaseLib C08.Model C08.Spec.
 Import ListNotations.
 
@@ -25,3 +25,79 @@ Definition corr_zpad (c : zcase) : bool :=
   zobs_eqb (z_obs c) (zero_pad_model (z_left c) (z_right c) (z_zero c) (z_xs c)).
 Definition holds_zpad (c : zcase) : bool :=
   zobs_eqb (z_obs c) (zero_pad_spec (z_left c) (z_right c) (z_zero c) (z_xs c)).
+
+(* ------------------------------------------------------------------ *)
+(* Round 2.  Python values with their TYPE visible: 0 / 0.0 / -0.0 / False and 1 / 1.0 / True are
+   different items ("float-" = negative zero); tuples and other exotic pads travel as their repr. *)
+Inductive pyv := PV (ty : string) (v : item).
+Definition pyv_eqb (a b : pyv) : bool :=
+  match a, b with PV t x, PV u y => String.eqb t u && item_eqb x y end.
+
+(* short constructors: the generated case files are large and their elaboration dominates the run time *)
+Definition vi (z : Z) : pyv := PV "int" (IZ z).
+Definition vb (z : Z) : pyv := PV "bool" (IZ z).
+Definition vf (q : Qc) : pyv := PV "float" (IQ q).
+Definition vfn : pyv := PV "float-" (IQ (qc 0 1)).
+Definition vs (s : string) : pyv := PV "str" (IS s).
+Definition vn : pyv := PV "NoneType" INone.
+Definition vt (s : string) : pyv := PV "tuple" (IS s).
+Definition vq (q : Qc) : pyv := PV "Fraction" (IQ q).
+Arguments vi _%Z. Arguments vb _%Z. Arguments vs _%string. Arguments vt _%string.
+
+Inductive pobs := POB (b : list (list pyv)) | POI (l : list pyv) | POR (e : string).
+(* one call of blocks (any entry point / input kind / argument style) or of zero_pad *)
+Inductive pcall :=
+| PB (size hop : nat) (pad : pyv) (xs : list pyv) (o : pobs)
+| PZ (left right : nat) (zero : pyv) (xs : list pyv) (o : pobs).
+Definition pobs_blocks (o : pobs) (b : list (list pyv)) : bool :=
+  match o with POB b' => list_eqb (list_eqb pyv_eqb) b' b | _ => false end.
+Definition pobs_items (o : pobs) (l : list pyv) : bool :=
+  match o with POI l' => list_eqb pyv_eqb l' l | _ => false end.
+Definition corr_call (c : pcall) : bool :=
+  match c with
+  | PB s h p xs o => pobs_blocks o (blocks_model s h p xs)
+  | PZ l r z xs o => pobs_items o (zero_pad_model l r z xs)
+  end.
+Definition holds_call (c : pcall) : bool :=
+  match c with
+  | PB s h p xs o => pobs_blocks o (blocks_spec s h p xs)
+  | PZ l r z xs o => pobs_items o (zero_pad_spec l r z xs)
+  end.
+(* a history of calls in one process: every call equals the per-call model *)
+Definition corr_calls (cs : list pcall) : bool := forallb corr_call cs.
+Definition holds_calls (cs : list pcall) : bool := forallb holds_call cs.
+
+(* live histories: next() calls interleaved with changes of the underlying list *)
+Inductive hobs := HO (l : list (option (list pyv))) | HOR (e : string).
+Record hcase := HC { h_size : nat; h_hop : nat; h_pad : pyv; h_buf : list pyv;
+                     h_ops : list (hop_t pyv); h_obs : hobs }.
+Definition hobs_eqb (o : hobs) (l : list (option (list pyv))) : bool :=
+  match o with HO l' => list_eqb (option_eqb (list_eqb pyv_eqb)) l' l | HOR _ => false end.
+
+Fixpoint hist_valid (size hop : nat) (pad : pyv) (ops : list (hop_t pyv)) (buf : list pyv)
+         (k : nat) (fin : bool) : bool :=
+  match ops with
+  | [] => true
+  | HNext :: r => let '(_, (k', fin')) := hist_next size hop pad k fin buf in hist_valid size hop pad r buf k' fin'
+  | HBuf l :: r =>
+    (fin || ((items_read size hop k <=? List.length l)%nat &&
+             list_eqb pyv_eqb (firstn (items_read size hop k) l) (firstn (items_read size hop k) buf)))
+    && hist_valid size hop pad r l k fin
+  end.
+
+Definition corr_hist (c : hcase) : bool :=
+  hobs_eqb (h_obs c) (gen_run (h_size c) (h_hop c) (h_pad c) (h_ops c) (h_buf c) g_init).
+(* a generated history that touches items already handed over is a harness error: it fails here *)
+Definition holds_hist (c : hcase) : bool :=
+  hist_valid (h_size c) (h_hop c) (h_pad c) (h_ops c) (h_buf c) 0 false &&
+  hobs_eqb (h_obs c) (hist_spec (h_size c) (h_hop c) (h_pad c) (h_ops c) (h_buf c) 0 false).
+
+Inductive zhobs := ZHO (l : list (option pyv)) | ZHOR (e : string).
+Record zhcase := ZHC { zh_left : nat; zh_right : nat; zh_zero : pyv; zh_buf : list pyv;
+                       zh_ops : list (hop_t pyv); zh_obs : zhobs }.
+Definition zhobs_eqb (o : zhobs) (l : list (option pyv)) : bool :=
+  match o with ZHO l' => list_eqb (option_eqb pyv_eqb) l' l | ZHOR _ => false end.
+Definition corr_zhist (c : zhcase) : bool :=
+  zhobs_eqb (zh_obs c) (zp_run (zh_left c) (zh_right c) (zh_zero c) (zh_ops c) (zh_buf c) z_init).
+Definition holds_zhist (c : zhcase) : bool :=
+  zhobs_eqb (zh_obs c) (zhist_spec (zh_left c) (zh_right c) (zh_zero c) (zh_ops c) (zh_buf c) 0 None).
